@@ -74,22 +74,28 @@ theorem parseTE_shape (p p' : P) (h : parseTE p = .ok p') :
   · cases h
 
 theorem parseCL_shape (p p' : P) (h : parseCL p = .ok p') :
-    (p' = { p with contentLength := -1 } ∧ (p.cl.head? = none ∨ p.cl.head? = some [])) ∨
-    (∃ v l, p.cl.head? = some v ∧ v ≠ [] ∧ parseCLValue (trimRightSpaces v) = some l ∧ 0 ≤ l ∧
-      p' = { p with contentLength := l }) := by
+    (p.cl = [] ∧ p' = { p with contentLength := -1 }) ∨
+    (∃ v rest l, p.cl = v :: rest ∧ (∀ w ∈ rest, trimRightSpaces w = trimRightSpaces v) ∧
+      parseCLValue (trimRightSpaces v) = some l ∧ 0 ≤ l ∧ p' = { p with contentLength := l }) := by
   unfold parseCL at h
   split at h
-  · rename_i v hv
+  · rename_i hc; left; cases h; exact ⟨hc, rfl⟩
+  · rename_i v rest hc
     split at h
-    · rename_i he; subst he; left; cases h; exact ⟨rfl, Or.inr hv⟩
-    · rename_i hne
+    · cases h
+    · rename_i hany
       split at h
       · cases h
       · rename_i l hl
         split at h
         · cases h
-        · rename_i hpos; right; cases h; exact ⟨v, l, hv, hne, hl, by omega, rfl⟩
-  · rename_i hn; left; cases h; exact ⟨rfl, Or.inl hn⟩
+        · rename_i hpos
+          right
+          cases h
+          refine ⟨v, rest, l, hc, ?_, hl, by omega, rfl⟩
+          intro w hw
+          simp only [List.any_eq_true, bne_iff_ne, ne_eq, not_exists, not_and, Decidable.not_not] at hany
+          exact hany w hw
 
 theorem addTrailerKeys_shape (p p' : P) (h : addTrailerKeys p = .ok p') :
     p' = p ∨ (p.chunked = true ∧ (declaredKeys p.tr).any forbiddenTrailer = false ∧
@@ -145,7 +151,7 @@ theorem byteStep_bodyHeld (g : Cfg) (p : P) (tok : Bytes) (c : UInt8) (p' : P) (
          · cases hq
          · rename_i q1 hq1
            rcases parseTE_shape _ _ hq1 with ⟨_, e⟩ | ⟨_, _, _, e⟩ <;>
-           rcases parseCL_shape _ _ hq with ⟨e2, _⟩ | ⟨_, _, _, _, _, _, e2⟩ <;> subst e e2 <;> rfl
+           rcases parseCL_shape _ _ hq with ⟨_, e2⟩ | ⟨_, _, _, _, _, _, _, e2⟩ <;> subst e e2 <;> rfl
        have b := a _ _ h1
        rcases addTrailerKeys_shape _ _ h2 with e | ⟨_, _, e⟩ <;> subst e <;> left <;> simpa using b)
     | skip
@@ -219,25 +225,26 @@ theorem parseCLValue_shape (b : Bytes) (l : Int) (h : parseCLValue b = some l) :
       · rename_i r; exact absurd rfl (h2 r)
       · simp [a, c]
 
-/-- **Content-Length.** If the framing functions accept a header section without chunked coding whose first
-    Content-Length value is non-empty, that value (trailing spaces removed) is `[+-]?DIGIT+` and the length reported
-    is its non-negative value: non-numeric, negative and overflowing values are rejected. -/
+/-- **Content-Length.** If the framing functions accept a header section without chunked coding that has Content-Length
+    fields, all their values are equal (trailing spaces aside), the value is `[+-]?DIGIT+` and the length reported is
+    its non-negative value: empty, non-numeric, negative, overflowing and differing values are rejected. -/
 theorem cl_accepted (p p' : P) (v : Bytes) (rest : List Bytes) (h : endOfHeaders p = .ok p')
-    (hte : p.te = []) (hcl : p.cl = v :: rest) (hv : v ≠ []) :
+    (hte : p.te = []) (hcl : p.cl = v :: rest) :
     clShape (trimRightSpaces v) = true ∧ 0 ≤ p'.contentLength ∧
-      parseCLValue (trimRightSpaces v) = some p'.contentLength := by
+      parseCLValue (trimRightSpaces v) = some p'.contentLength ∧
+      ∀ w ∈ rest, trimRightSpaces w = trimRightSpaces v := by
   simp only [endOfHeaders, bind, Except.bind] at h
   split at h
   · cases h
   · rename_i q hq
     rcases parseTE_shape _ _ hq with ⟨_, e⟩ | ⟨w, e, _⟩
     · subst e
-      rcases parseCL_shape _ _ h with ⟨_, h2 | h2⟩ | ⟨w, l, h1, _, h3, h4, e2⟩
-      · simp [hcl] at h2
-      · simp only [hcl, List.head?_cons, Option.some.injEq] at h2; exact absurd h2 hv
-      · simp only [hcl, List.head?_cons, Option.some.injEq] at h1
-        subst h1 e2
-        exact ⟨parseCLValue_shape _ _ h3, h4, h3⟩
+      rcases parseCL_shape _ _ h with ⟨h2, _⟩ | ⟨w, r, l, h1, h2, h3, h4, e2⟩
+      · rw [hcl] at h2; cases h2
+      · rw [hcl] at h1
+        cases h1
+        subst e2
+        exact ⟨parseCLValue_shape _ _ h3, h4, h3, h2⟩
     · rw [hte] at e; cases e
 
 /-- **Chunk size.** An accepted chunk-size token is one or more hex digits with a value below 2^62 (≤ MaxInt):
@@ -258,7 +265,7 @@ theorem te_accepted (p p' : P) (h : endOfHeaders p = .ok p') (hte : p.te ≠ [])
     · exact absurd e hte
     · subst e3
       refine ⟨v, e1, e2, ?_⟩
-      rcases parseCL_shape _ _ h with ⟨e, _⟩ | ⟨_, _, _, _, _, _, e⟩ <;> subst e <;> rfl
+      rcases parseCL_shape _ _ h with ⟨_, e⟩ | ⟨_, _, _, _, _, _, _, e⟩ <;> subst e <;> rfl
 
 /-- **Trailer.** An accepted chunked header section announces no trailer named Transfer-Encoding, Trailer or
     Content-Length. -/
